@@ -409,6 +409,7 @@ def cases(tier, seed):
     for opt in ("auto_reduce_dimensions", "autoconvert_to_preferred"):
         for u, v in [("meter", "inch"), ("liter", "meter"), ("newton", "pound"), ("joule", "second")] + [tuple(rnd.sample(cov, 2)) for _ in range(6 if big else 1)]:
             out.append(Case("H15.d", f"{opt}:{u},{v}", M, "h_auto", {"u": u, "v": v, "option": opt}, validate=1, weight=5.0))
+    out.append(Case("H15.obs", "observed", "pvlib.harness.observed", "h_c15", {}, kind="conc"))
     return out
 
 
